@@ -132,7 +132,7 @@ def replay_known(prop, known, out):
         keys = {vkey(v) for v in res['violations']}
         if k['status'] == 'known':
             if k['signature'] in keys:
-                out('KNOWN-FINDING: property=%s %s' % (prop.ID, k['what']))
+                out(k.get('line') or 'KNOWN-FINDING: property=%s %s' % (prop.ID, k['what']))
                 matched.append(k['id'])
             else:
                 out('note: known finding %s no longer reproduces on this tree (entry is stale, nothing suppressed '
